@@ -21,6 +21,7 @@ import os
 import re
 
 from . import flow
+from . import mir
 
 POLL = "std::future::Future::poll"
 NONE, OK, ERR, UNK = "none", "ok", "err", "unk"
@@ -656,3 +657,36 @@ def _adopt_detached(crate, H, dissolved):
                 b.root = B.root
         adopted[n] = B.name
     return adopted
+
+
+def expand_predicates(crate, body, limit=12):
+    """A private copy of `body` in which calls to module-private, non-trait, bool-returning sync helpers of the
+    crate are replaced by the helper's statements. For the path-sensitive PRED enumerator (cv.pred), which
+    propagates the helper's `true` / `false` to the caller's branch; the flow-insensitive rules keep such helpers
+    as named tests instead (see _candidates). Returns (copy, number of sites expanded)."""
+    B = mir.Body(copy.deepcopy(body.d), crate)
+    n = 0
+    while n < limit:
+        _reset(B)
+        hit = False
+        for i, blk in enumerate(B.blocks):
+            if blk["cleanup"]:
+                continue
+            name = _callee_of(blk["term"])
+            hb = crate.bodies.get(name) if name else None
+            if hb is None or hb.name in (body.name, body.root) or hb.kind not in ("fn", "assoc_fn") or hb.trait or hb.def_mac:
+                continue
+            if (hb.ret or "") != "bool" or not hb.file.startswith("src/") or not _module_private(hb):
+                continue
+            if (name + "::{closure#0}") in crate.bodies and crate.bodies[name + "::{closure#0}"].kind == "coroutine":
+                continue
+            if blk["term"]["dest"]["p"]:
+                continue
+            _inline_sync_site(B, i, hb)
+            n += 1
+            hit = True
+            break
+        if not hit:
+            break
+    _reset(B)
+    return B, n
